@@ -306,6 +306,10 @@ func (n *Node) yang(b *strings.Builder, d int) {
 	case Case:
 		fmt.Fprintf(b, "case %s {\n", n.Name)
 	case Leaf, LeafList:
+		if n.Type == "anydata" {
+			fmt.Fprintf(b, "anydata %s;\n", n.Name)
+			return
+		}
 		fmt.Fprintf(b, "%s %s {\n", n.Kind, n.Name)
 		ind(b, d+1)
 		switch n.Type {
